@@ -1344,20 +1344,21 @@ class VM:
                 acc = vm._call_callback(callback, [acc, elem, i, arr])
             return acc
 
+        def relative_index(value, length):
+            """Relative index argument: ToIntegerOrInfinity, negative counts from the end, clamped to [0, length]."""
+            rel = to_integer_or_infinity(value)
+            if rel < 0:
+                return clamp_index(length + rel, length)
+            return clamp_index(rel, length)
+
         def splice_fn(*args):
-            start = int(to_number(args[0])) if args else 0
-            delete_count = (
-                int(to_number(args[1])) if len(args) > 1 else len(arr._elements) - start
-            )
-            items = list(args[2:]) if len(args) > 2 else []
-
             length = len(arr._elements)
-            if start < 0:
-                start = max(0, length + start)
+            start = relative_index(args[0], length) if args else 0
+            if len(args) > 1:
+                delete_count = clamp_index(to_integer_or_infinity(args[1]), length - start)
             else:
-                start = min(start, length)
-
-            delete_count = max(0, min(delete_count, length - start))
+                delete_count = length - start
+            items = list(args[2:]) if len(args) > 2 else []
 
             # Create result array with deleted elements
             result = JSArray()
@@ -1380,9 +1381,7 @@ class VM:
 
         def indexOf_fn(*args):
             search = args[0] if args else UNDEFINED
-            start = int(to_number(args[1])) if len(args) > 1 else 0
-            if start < 0:
-                start = max(0, len(arr._elements) + start)
+            start = relative_index(args[1], len(arr._elements)) if len(args) > 1 else 0
             for i in range(start, len(arr._elements)):
                 if vm._strict_equals(arr._elements[i], search):
                     return i
@@ -1390,10 +1389,12 @@ class VM:
 
         def lastIndexOf_fn(*args):
             search = args[0] if args else UNDEFINED
-            start = int(to_number(args[1])) if len(args) > 1 else len(arr._elements) - 1
+            length = len(arr._elements)
+            start = to_integer_or_infinity(args[1]) if len(args) > 1 else length - 1
             if start < 0:
-                start = len(arr._elements) + start
-            for i in range(min(start, len(arr._elements) - 1), -1, -1):
+                start = length + start
+            start = int(min(start, length - 1)) if start >= 0 else -1
+            for i in range(start, -1, -1):
                 if vm._strict_equals(arr._elements[i], search):
                     return i
             return -1
@@ -1449,12 +1450,11 @@ class VM:
             return result
 
         def slice_fn(*args):
-            start = int(to_number(args[0])) if args else 0
-            end = int(to_number(args[1])) if len(args) > 1 else len(arr._elements)
-            if start < 0:
-                start = max(0, len(arr._elements) + start)
-            if end < 0:
-                end = max(0, len(arr._elements) + end)
+            length = len(arr._elements)
+            start = relative_index(args[0], length) if args else 0
+            end = length
+            if len(args) > 1 and args[1] is not UNDEFINED:
+                end = relative_index(args[1], length)
             result = JSArray()
             result._elements = arr._elements[start:end]
             return result
@@ -1465,9 +1465,7 @@ class VM:
 
         def includes_fn(*args):
             search = args[0] if args else UNDEFINED
-            start = int(to_number(args[1])) if len(args) > 1 else 0
-            if start < 0:
-                start = max(0, len(arr._elements) + start)
+            start = relative_index(args[1], len(arr._elements)) if len(args) > 1 else 0
             for i in range(start, len(arr._elements)):
                 if vm._strict_equals(arr._elements[i], search):
                     return True
@@ -1718,18 +1716,14 @@ class VM:
             return separator.join(str(arr.get_index(i)) for i in range(arr.length))
 
         def subarray_fn(*args):
-            begin = int(to_number(args[0])) if len(args) > 0 else 0
-            end = int(to_number(args[1])) if len(args) > 1 else arr.length
+            def relative(value):
+                rel = to_integer_or_infinity(value)
+                return clamp_index(arr.length + rel if rel < 0 else rel, arr.length)
 
-            # Handle negative indices
-            if begin < 0:
-                begin = max(0, arr.length + begin)
-            if end < 0:
-                end = max(0, arr.length + end)
-
-            # Clamp to bounds
-            begin = min(begin, arr.length)
-            end = min(end, arr.length)
+            begin = relative(args[0]) if len(args) > 0 else 0
+            end = arr.length
+            if len(args) > 1 and args[1] is not UNDEFINED:
+                end = relative(args[1])
 
             # Create new typed array of same type
             result = type(arr)(max(0, end - begin))
